@@ -434,7 +434,11 @@ func (w *c13World) compareOne(f *replica, e logEntry, res []byte, err error, how
 	case err != nil && errClass(err) != e.errCls:
 		r.FailSig("outcome-divergence", "error-class", fmt.Sprintf("#%d %s: reference replica rejected with %s, replica %s (%s) with %s", e.idx, e.desc, e.errCls, f.n.name, how, errClass(err)), nil)
 	case err == nil && !bytes.Equal(res, e.res):
-		r.FailSig("result-divergence", resultKind(e.res)+"->"+resultKind(res), fmt.Sprintf("#%d %s: reference replica (applied alone) returned %q, replica %s (%s) returned %q", e.idx, e.desc, e.res, f.n.name, how, res), nil)
+		sig := resultKind(e.res) + "->" + resultKind(res)
+		if string(e.res) == "hash_slot_fenced" || string(res) == "hash_slot_fenced" {
+			sig = "hash-slot-fence-seen-differently"
+		}
+		r.FailSig("result-divergence", sig, fmt.Sprintf("#%d %s: reference replica (applied alone) returned %q, replica %s (%s) returned %q", e.idx, e.desc, e.res, f.n.name, how, res), nil)
 	default:
 		return true
 	}
